@@ -827,7 +827,9 @@ func c09R9(c *Ctx) {
 			continue
 		}
 		n++
-		w := q.Escapes(nil, isExactly(r), func(k ast.Node) bool { return k == ast.Node(loop) || k == ast.Node(loop.X) || (k.Pos() >= loop.Pos() && k.End() <= loop.End()) }, nil)
+		w := q.Escapes(nil, isExactly(r), func(k ast.Node) bool {
+			return k == ast.Node(loop) || k == ast.Node(loop.X) || (k.Pos() >= loop.Pos() && k.End() <= loop.End())
+		}, nil)
 		c.Check(w == nil, "C09.R9", "Manager.Release: success only behind the loop over the resources", p.Pos(r), fn.Key(), "must-pass: range req.NetworkResources", "path: "+p.describePath(w))
 	}
 	c.Floor("C09.R9", "success returns of Manager.Release", 1, n)
